@@ -1565,6 +1565,12 @@ def _arr_mean_axis(I, recv, args, kwargs):
     raise Undecided("ndarray.mean with arguments")
 
 
+@method("arr", "sum")
+def arr_sum_m(I, recv, args, kwargs):
+    """a.sum(axis=0) of a stack of m equally shaped arrays == np.sum(a, axis=0)"""
+    return np_sum2(I, [recv] + list(args), kwargs)
+
+
 # ----------------------------------------------------------------------------- further models (so that more code variants stay decidable)
 
 @lib("numpy.unique")
@@ -1662,3 +1668,18 @@ def sp_boxcox(I, args, kwargs):
 @lib("scipy.special.inv_boxcox")
 def sp_inv_boxcox(I, args, kwargs):
     return _elementwise_uf(I, "inv_boxcox", to_arr(I, args[0]), extra=(args[1],))
+
+
+@lib("numpy.sign")
+def np_sign(I, args, kwargs):
+    """elementwise sign: -1, 0 or 1 (0 for an exact zero)"""
+    v = args[0]
+
+    def sg(x):
+        x = ops.as_real(x)
+        return z3.If(x > 0, z3.RealVal(1), z3.If(x < 0, z3.RealVal(-1), z3.RealVal(0)))
+    if isinstance(v, SSeries):
+        return SSeries(v.index, ops.map_arr(v.values, sg, dtype="real"), v.name)
+    if isinstance(v, SArr):
+        return ops.map_arr(v, sg, dtype="real")
+    return sg(v)
